@@ -250,6 +250,7 @@ async fn run_case(c: &Case) -> Result<Obs, String> {
         return Ok(obs);
     };
     drop(acc);
+    let _ = s.set_linger(Some(Duration::ZERO));
     // what the server is going to send, message by message
     let srv = &c.server;
     let sel = vec![srv.sel_version, srv.method];
